@@ -132,6 +132,7 @@ struct TwinEnv : Family {
 					std::string nm = randName(r, 1, 10, r.chance(1, 2));
 					if (!names.empty() && r.chance(1, 3)) nm = tieProneSibling(names[r.below(names.size())], r);
 					if (r.chance(1, 6)) nm = digestTwin(names, r, 12);
+					if (!nm.empty() && nm[0] == '_') nm[0] = '^';
 					bool clash = false;
 					for (auto& o : names) if (ref::nameEqualNoCase(o, nm)) clash = true;
 					if (clash) continue;
